@@ -42,8 +42,18 @@ fn stub_composite<T: Sample>(
     if kani::any() { Ok(()) } else { Err(any_error()) }
 }
 
+/// Which outcome the composite_preprocess stub produces: 0 = any (symbolic), 1 = Ok(true) (no composition needed),
+/// 2 = Ok(false) (composition follows), 3 = Err. The Done-state blend harness is split by this outcome because the
+/// all-in-one version exceeds the memory budget; together the instantiations cover every outcome.
+static mut PRE_MODE: u8 = 0;
+
 fn stub_composite_preprocess(_frame: &IndexedFrame, _grid: &mut ImageWithRegion, _pool: &JxlThreadPool) -> Result<bool> {
-    if kani::any() { Ok(kani::any()) } else { Err(any_error()) }
+    match unsafe { PRE_MODE } {
+        1 => Ok(true),
+        2 => Ok(false),
+        3 => Err(any_error()),
+        _ => if kani::any() { Ok(kani::any()) } else { Err(any_error()) },
+    }
 }
 
 fn stub_image_header(_f: &jxl_frame::Frame) -> &jxl_image::ImageHeader {
@@ -182,7 +192,25 @@ macro_rules! blend_contract {
     };
 }
 blend_contract!(handle_blend_none, 0);
-blend_contract!(handle_blend_done, 1);
+// state Done, split by the outcome of composite_preprocess (see PRE_MODE)
+macro_rules! blend_done_contract {
+    ($name:ident, $mode:expr) => {
+        handle_contract!($name, 1, 1, |h| {
+            unsafe { PRE_MODE = $mode; }
+            let img = RenderedImage::new(Arc::clone(&h));
+            let pool = JxlThreadPool::none();
+            let r = img.blend(Some(Region::with_size(8, 8)), &pool);
+            assert!(not_rendering(&h), "[C08] blend leaves the handle in a final (non-Rendering) state on Ok and on Err (a failed composite must not wedge the frame)");
+            kani::cover!($mode == 3 || r.is_ok());
+            kani::cover!($mode == 1 || r.is_err());
+            std::mem::forget(r);
+            std::mem::forget(img);
+        });
+    };
+}
+blend_done_contract!(handle_blend_done_skip, 1);
+blend_done_contract!(handle_blend_done_composite, 2);
+blend_done_contract!(handle_blend_done_preerr, 3);
 blend_contract!(handle_blend_blended, 2);
 blend_contract!(handle_blend_err, 3);
 blend_contract!(handle_blend_errtaken, 4);
@@ -211,6 +239,7 @@ take_reset_contract!(handle_take_errtaken, 4);
 // Two-step composition (a failed blend followed by another render request): the second call returns,
 // i.e. never waits (stub_wait panics if it would block forever).
 handle_contract!(handle_failed_blend_then_render_returns, 1, 1, |h| {
+    unsafe { PRE_MODE = 2; }
     let img = RenderedImage::new(Arc::clone(&h));
     let pool = JxlThreadPool::none();
     let r1 = img.blend(Some(Region::with_size(8, 8)), &pool);
